@@ -27,6 +27,9 @@ pub enum Loc {
     /// padded with): 0 at the end, 1 alone, 2 in the middle, 3 twice at the end, 4 at the start
     #[serde(alias = "Nul")]
     Nul(u8),
+    /// plain strings that LOOK like something else: a URL scheme in front of a relative path
+    /// (`backup:content.jbkc`), `file:` forms, a scheme with a dot, a drive letter
+    Colon(u8),
 }
 
 #[derive(Serialize, Deserialize, Clone, Debug, PartialEq, Eq)]
@@ -104,6 +107,7 @@ fn loc_string(l: &Loc, original: &str, current: &str) -> String {
             3 => "p\0\0".to_string(),
             _ => "\0pack".to_string(),
         },
+        Loc::Colon(k) => ["backup:content.jbkc", "packs.2024:v2/content.jbkc", "file:content.jbkc", "file:///abs/content.jbkc", "https://host/x.jbkc", "C:\\packs\\x.jbkc", "a+b-c.d:e"][*k as usize % 7].to_string(),
         Loc::DotDot => "../elsewhere/../pack.jbkc".to_string(),
         Loc::Original => original.to_string(),
     }
@@ -125,7 +129,7 @@ impl Property for C12 {
     const ID: &'static str = "C12";
 
     fn rule() -> String {
-        "stateful: proptest-generated histories (0..12 ops) of set_location{listed pack k | unknown uuid, location in {empty, ASCII 0..213 bytes, multi-byte UTF-8 of exactly n<=213 bytes (incl. 211, 212, 213), path with .., the original}} interleaved with reopen, over manifests standalone (NoConcat) or inside a container file at small and large offsets (OneFile, TwoFiles; contents of generated size in front of it), 2-4 packs listed. The interpreter applies each op with tools::set_location and to a model map uuid->location. Oracle after every op: return value Ok(Some((kind, previous location))) / Ok(None) with a byte-identical file for an unknown uuid; the file differs from its predecessor only inside bytes 38..256 of that pack-info block (offset from the independent decoder); ManifestPack::new succeeds and its pack infos equal the model (other fields unchanged); ManifestPack::check, ContainerPack::check and the independent decoder's own blake3/CRC verification succeed; when the directory pack is reachable Container::new succeeds, check() is true, entries equal the model and contents of reachable packs equal the model. Non-trivial = >=2 rewrites one of which targets a pack rewritten before, or a multi-byte location at the length limit, or a manifest at offset > 0; distinct by history shape. One case in five is assembled with the low-level creators (0/30/70 KB of free data per pack, the directory pack declared after 0..3 content packs); fixed cases: manifests of 270 and 300 packs (pack infos across the 64 KiB buffer the check is computed through), the location of every pack rewritten in turn. 301 further fixed cases move the pack-info array one byte at a time (one pack carrying 0..=300 bytes of free data). One container is kept open from before the first rewrite; after every rewrite a manifest parsed through it must read the locations written and verify. Locations also include strings holding U+0000 (at the end, alone, in the middle, twice, at the start): the byte the field is padded with. The same byte-by-byte sweep is made for manifests of 260 packs, whose pack-info array crosses the 64 KiB mark of the stream the check is computed through (86 cases, all 256 in the thorough tier).".into()
+        "stateful: proptest-generated histories (0..12 ops) of set_location{listed pack k | unknown uuid, location in {empty, ASCII 0..213 bytes, multi-byte UTF-8 of exactly n<=213 bytes (incl. 211, 212, 213), path with .., the original}} interleaved with reopen, over manifests standalone (NoConcat) or inside a container file at small and large offsets (OneFile, TwoFiles; contents of generated size in front of it), 2-4 packs listed. The interpreter applies each op with tools::set_location and to a model map uuid->location. Oracle after every op: return value Ok(Some((kind, previous location))) / Ok(None) with a byte-identical file for an unknown uuid; the file differs from its predecessor only inside bytes 38..256 of that pack-info block (offset from the independent decoder); ManifestPack::new succeeds and its pack infos equal the model (other fields unchanged); ManifestPack::check, ContainerPack::check and the independent decoder's own blake3/CRC verification succeed; when the directory pack is reachable Container::new succeeds, check() is true, entries equal the model and contents of reachable packs equal the model. Non-trivial = >=2 rewrites one of which targets a pack rewritten before, or a multi-byte location at the length limit, or a manifest at offset > 0; distinct by history shape. One case in five is assembled with the low-level creators (0/30/70 KB of free data per pack, the directory pack declared after 0..3 content packs); fixed cases: manifests of 270 and 300 packs (pack infos across the 64 KiB buffer the check is computed through), the location of every pack rewritten in turn. 301 further fixed cases move the pack-info array one byte at a time (one pack carrying 0..=300 bytes of free data). One container is kept open from before the first rewrite; after every rewrite a manifest parsed through it must read the locations written and verify. Locations also include strings holding U+0000 (at the end, alone, in the middle, twice, at the start): the byte the field is padded with. The same byte-by-byte sweep is made for manifests of 260 packs, whose pack-info array crosses the 64 KiB mark of the stream the check is computed through (86 cases, all 256 in the thorough tier). Locations also include strings that look like URLs or drive paths (backup:content.jbkc, file:..., https://..., C:\\...).".into()
     }
 
     fn cases(tier: Tier) -> u32 {
@@ -198,6 +202,7 @@ impl Property for C12 {
             2 => Just(Loc::Original),
             2 => (0u8..4).prop_map(Loc::Respell),
             1 => (0u8..5).prop_map(Loc::Nul),
+            1 => (0u8..7).prop_map(Loc::Colon),
         ];
         let op = prop_oneof![
             6 => (any::<u16>(), prop::bool::weighted(0.12), loc).prop_map(|(pack, unknown, loc)| Op::Set { pack, unknown, loc }),
@@ -222,7 +227,7 @@ impl Property for C12 {
     }
 
     fn required_classes(_tier: Tier) -> Vec<&'static str> {
-        vec!["manifest-at-offset>0", "manifest-standalone", "rewrite-twice-same-pack", "utf8-at-limit", "unknown-uuid", "relocate-directory-pack", "restore-original", "packs-listed:4", "lowlevel-container", "pack-infos-beyond-64KiB", "directory-pack-not-declared-first", "many-packs", "respelled-location", "pack-info-array-alignment-sweep", "location-with-nul-character"]
+        vec!["manifest-at-offset>0", "manifest-standalone", "rewrite-twice-same-pack", "utf8-at-limit", "unknown-uuid", "relocate-directory-pack", "restore-original", "packs-listed:4", "lowlevel-container", "pack-infos-beyond-64KiB", "directory-pack-not-declared-first", "many-packs", "respelled-location", "pack-info-array-alignment-sweep", "location-with-nul-character", "location-looking-like-a-url"]
     }
 
     fn run(case: &Case, ctx: &Ctx) -> CaseResult {
@@ -454,6 +459,9 @@ impl Property for C12 {
                     if matches!(loc, Loc::Respell(_)) && newloc != infos[k].location {
                         info.class("respelled-location");
                     }
+                    if matches!(loc, Loc::Colon(_)) {
+                        info.class("location-looking-like-a-url");
+                    }
                     if matches!(loc, Loc::Nul(_)) {
                         info.class("location-with-nul-character");
                     }
@@ -562,6 +570,7 @@ impl Property for C12 {
                             Loc::Original => 4,
                             Loc::Respell(_) => 5,
                             Loc::Nul(_) => 6,
+                            Loc::Colon(_) => 7,
                         }
                 }
             })
